@@ -640,6 +640,69 @@ static int emitc_mode (const char *out) {
 }
 #endif
 
+#ifdef C02_WITH_MIR2C
+/* one function per opcode named on stdin: just that instruction on registers qa0 qa1 qa2 (typed by the operand
+   modes of the opcode, a label where the opcode wants one) and `ret 0`; the C text mir2c prints goes to stdout.
+   Used by tools/tr_c20_mir2c.py for the rows whose printing code it cannot execute symbolically. */
+static int probe_mode (void) {
+  char line[200];
+  MIR_context_t ctx = MIR_init ();
+  MIR_set_error_func (ctx, err_func);
+  MIR_module_t m = MIR_new_module (ctx, "probe");
+  if (setjmp (err_jmp)) {
+    fprintf (stderr, "probe: %s\n", err_msg);
+    return 3;
+  }
+  while (fgets (line, sizeof (line), stdin) != NULL) {
+    char *nl = strchr (line, '\n');
+    if (nl != NULL) *nl = 0;
+    MIR_insn_code_t code = find_code (ctx, line);
+    if (code == MIR_INSN_BOUND) continue;
+    char fname[220];
+    snprintf (fname, sizeof (fname), "pr_%s", line);
+    MIR_type_t res_type = MIR_T_I64;
+    MIR_item_t func = MIR_new_func_arr (ctx, fname, 1, &res_type, 0, NULL);
+    MIR_op_t ops[3];
+    MIR_insn_t lab = NULL;
+    int n, ok = 1;
+    for (n = 0; n < 3; n++) {
+      int out_p;
+      MIR_op_mode_t mode = _MIR_insn_code_op_mode (ctx, code, n, &out_p);
+      if (mode == MIR_OP_BOUND) break;
+      char rname[8];
+      snprintf (rname, sizeof (rname), "qa%d", n);
+      if (mode == MIR_OP_LABEL) {
+        lab = MIR_new_label (ctx);
+        ops[n] = MIR_new_label_op (ctx, lab);
+      } else if (mode == MIR_OP_INT || mode == MIR_OP_UINT) {
+        ops[n] = MIR_new_reg_op (ctx, MIR_new_func_reg (ctx, func->u.func, MIR_T_I64, rname));
+      } else if (mode == MIR_OP_FLOAT) {
+        ops[n] = MIR_new_reg_op (ctx, MIR_new_func_reg (ctx, func->u.func, MIR_T_F, rname));
+      } else if (mode == MIR_OP_DOUBLE) {
+        ops[n] = MIR_new_reg_op (ctx, MIR_new_func_reg (ctx, func->u.func, MIR_T_D, rname));
+      } else if (mode == MIR_OP_LDOUBLE) {
+        ops[n] = MIR_new_reg_op (ctx, MIR_new_func_reg (ctx, func->u.func, MIR_T_LD, rname));
+      } else {
+        ok = 0;
+      }
+    }
+    if (code == MIR_BO || code == MIR_BNO || code == MIR_UBO || code == MIR_UBNO) { /* need an overflow insn before them */
+      MIR_op_t q = MIR_new_reg_op (ctx, MIR_new_func_reg (ctx, func->u.func, MIR_T_I64, "qb0"));
+      MIR_append_insn (ctx, func, MIR_new_insn (ctx, MIR_ADDO, q, q, q));
+    }
+    if (ok && n > 0) MIR_append_insn (ctx, func, MIR_new_insn_arr (ctx, code, n, ops));
+    if (lab != NULL) MIR_append_insn (ctx, func, lab);
+    MIR_append_insn (ctx, func, MIR_new_ret_insn (ctx, 1, MIR_new_int_op (ctx, 0)));
+    MIR_finish_func (ctx);
+  }
+  MIR_finish_module (ctx);
+  MIR_module2c (ctx, stdout, m);
+  MIR_finish (ctx);
+  return 0;
+}
+
+#endif
+
 static int runso_mode (const char *lib) {
   char line[2000];
   case_t c;
@@ -675,6 +738,9 @@ int main (int argc, char **argv) {
   if (argc >= 3 && strcmp (argv[1], "emitc") == 0) return emitc_mode (argv[2]);
 #endif
   if (argc >= 3 && strcmp (argv[1], "runso") == 0) return runso_mode (argv[2]);
+#ifdef C02_WITH_MIR2C
+  if (argc >= 2 && strcmp (argv[1], "probe") == 0) return probe_mode ();
+#endif
   fprintf (stderr, "usage: c02_insn run | emitc FILE | runso LIB   (cases on stdin)\n");
   return 2;
 }
